@@ -998,6 +998,9 @@ func ruleAcceptLoopEndsWithListener(c *Ctx, rid string) {
 		}
 		for _, b := range al.Loop.sortedBlocks() {
 			for idx, s := range b.Succs {
+				if deadEdge(b, idx) {
+					continue
+				}
 				isErrEdge := false
 				for _, at := range edgeOnly(b, idx) {
 					if at.Kind == "nil" && !at.Pos && at.X == errEx {
